@@ -159,7 +159,7 @@ def summarise_interp(result):
             width = 16 if 'word' in nm else 8
             args = e[2]
             bus.append({'kind': kind, 'width': width, 'addr': args[1], 'value': args[2] if kind == 'w' else e[3],
-                        'site': e[4]})
+                        'site': e[4], 'site_helper': e[1]})
     from .affine import diff_const
     ipd = diff_const(regs['ip'], entry_reg('ip'), env, 32)
     cyd = diff_const(regs['cycles'], entry_reg('cycles'), env, 32)
